@@ -147,15 +147,26 @@ class ListOf(Spec):
 class Obj(Spec):
     """instance of a real /repo class with the given attribute specs (created without running __init__)"""
 
-    def __init__(self, cls, make=None, **attrs):
+    def __init__(self, cls, make=None, init=None, **attrs):
         self.cls = cls
         self.attrs = attrs
         self.make = make
+        self.init = init  # tuple of attribute names passed positionally to the real __init__ (interpreted), else __init__ is skipped
 
     def sym(self, name, ip):
         cls = loader.resolve(self.cls) if isinstance(self.cls, str) else self.cls
         vals = {k: (s.sym("%s.%s" % (name, k), ip) if isinstance(s, Spec) else s) for k, s in self.attrs.items()}
-        o = ip.new_symobj(cls, **vals)
+        if self.init is not None:
+            try:
+                o = ip.instantiate(cls, [vals[k] for k in self.init], {})
+            except PyRaise:
+                raise PathInfeasible()  # the constructor rejects these arguments: not a valid object of the class
+            for k, v in vals.items():
+                if k not in self.init:
+                    ip.setattr(o, k, v)
+            ip.symobjs[id(o)] = o
+        else:
+            o = ip.new_symobj(cls, **vals)
         o.__dict__["__pyv_spec__"] = self
         return o
 
@@ -213,24 +224,41 @@ class Contract:
         self.max_paths = max_paths
         self.timeout_ms = timeout_ms
         self.setup = setup
-        self.name = name or target.split(".", 1)[1] if target.startswith("partitura.") else (name or target)
+        self.name = name
         self.frame = frame
 
     def fixed(self, fix):
         """copy of the contract with some parameters pinned to one value (used to spread a case split over processes)"""
         import copy
         c = copy.copy(self)
-        c.params = [(n, Const(fix[n]) if n in fix else s) for n, s in self.params]
+        newp = []
+        for n, s in self.params:
+            if n in fix:
+                s = Const(fix[n])
+            else:
+                for k, v in fix.items():
+                    if k.startswith(n + "."):
+                        s = copy.copy(s)
+                        s.attrs = dict(s.attrs)
+                        s.attrs[k.split(".", 1)[1]] = Const(v)
+            newp.append((n, s))
+        c.params = newp
         return c
 
     def split_jobs(self):
         if not getattr(self, "split", None):
             return [None]
         n = self.split
-        spec = dict(self.params)[n]
+        if "." in n:
+            base, attr = n.split(".", 1)
+            spec = dict(self.params)[base].attrs[attr]
+        else:
+            spec = dict(self.params)[n]
         return [{n: v} for v in spec.values]
 
     def short(self):
+        if self.name:
+            return self.name
         t = self.target
         for p in ("partitura.utils.music.", "partitura.score.", "partitura.utils.generic.", "partitura.performance.",
                   "partitura.io.", "partitura.musicanalysis.", "partitura."):
